@@ -8,6 +8,7 @@ import (
 	"encoding/json"
 	"fmt"
 	"math"
+	"math/bits"
 	"sort"
 	"strings"
 
@@ -16,6 +17,79 @@ import (
 
 const fullLimitQuick = 12    // quick: full index lists for rows, cols <= 12 (larger: hashes)
 const fullLimitThorough = 24 // thorough: full index lists for all rows, cols <= 24
+const bigIdxCount = 90000    // outputs with at least this many indices are compared by fingerprint only (CBig)
+
+// number of distinct positions the parameters ask for (the quantity a size-dependent code path would look at)
+func weldedCount(d desc) int {
+	if d.Fam == "cyl" {
+		return 2*d.Sides + 2
+	}
+	return (d.Rows-1)*d.Cols + 2
+}
+
+// bigShape: rows, cols with (rows-1)*cols+2 >= target; shape 0 = square, 1 = many rows / few columns, 2 = few rows / many columns
+func bigShape(r *hx.Rng, target, shape int) (rows, cols int) {
+	switch shape {
+	case 1:
+		cols = r.Range(3, 24)
+		rows = (target-2+cols-1)/cols + 1
+	case 2:
+		rows = r.Range(2, 12)
+		cols = (target - 2 + rows - 2) / (rows - 1)
+	default:
+		cols = int(math.Ceil(math.Sqrt(float64(target)))) + r.Intn(5)
+		rows = (target-2+cols-1)/cols + 1
+	}
+	if cols < 3 {
+		cols = 3
+	}
+	for (rows-1)*cols+2 < target {
+		rows++
+	}
+	return
+}
+
+// bigCases: genuinely large parameterisations, at and just above 2^14, 2^15, 2^16 vertices (size-dependent code paths
+// — parallel fills, chunked buffers, 16-bit indices — start at such counts), both aspect ratios; judged by the
+// harness oracles (closedness after merging, volume, orientation, normals) and tied to the model by fingerprints.
+func bigCases(r *hx.Rng, thorough bool) {
+	fams := []string{"sphere", "sphereU", "hemi"}
+	for e := 14; e <= 16; e++ {
+		for fi, fam := range fams {
+			shapes := []int{(e + fi + int(run.Seed%3)) % 3}
+			if thorough {
+				shapes = []int{0, 1, 2}
+			}
+			for _, sh := range shapes {
+				rows, cols := bigShape(r, 1<<e, sh)
+				one(desc{Fam: fam, Rows: rows, Cols: cols, Radius: randSize(r), Capped: r.Bool()}, "big")
+				if thorough || e == 14 {
+					// the last parameterisation below the power of two
+					rows2, cols2 := rows, cols
+					for (rows2-1)*cols2+2 >= 1<<e && rows2 > 2 {
+						rows2--
+					}
+					if (rows2-1)*cols2+2 < 1<<e {
+						one(desc{Fam: fam, Rows: rows2, Cols: cols2, Radius: randSize(r)}, "big")
+					}
+				}
+			}
+		}
+	}
+	var sides []int
+	for e := 12; e <= 16; e++ {
+		if thorough || e <= 14 || e == 15+int(run.Seed%2) {
+			sides = append(sides, 1<<e+r.Intn(3))
+		}
+	}
+	if thorough {
+		sides = append(sides, 1<<13-1, 1<<14-1, 1<<15-1, 1<<16-1)
+	}
+	for _, n := range sides {
+		rad := randSize(r)
+		one(desc{Fam: "cyl", Sides: n, Radius: rad, Height: relSize(r, rad), UV: r.Intn(8), UVSeed: r.U64() % 1000}, "big")
+	}
+}
 
 type convDesc struct {
 	Fam  string  `json:"fam"`
@@ -125,7 +199,7 @@ func balance() {
 	run.Extra["estimated_max_shard_cost_s"] = float64(mx) / 1e6
 }
 
-// one: run one parameterisation; mode "full" | "hash" | "auto" (by size and tier)
+// one: run one parameterisation; mode "full" | "hash" | "big" | "auto" (by size and tier)
 func one(d desc, mode string) {
 	p, class, msg := build(d)
 	run.Count("class:" + class)
@@ -183,9 +257,11 @@ func one(d desc, mode string) {
 	small := d.Rows <= lim && d.Cols <= lim && d.Sides <= 64
 	if mode == "full" {
 		small = true
-	} else if mode == "hash" {
+	} else if mode == "hash" || mode == "big" {
 		small = false
 	}
+	// very large outputs (also when replayed): fingerprints only, closedness of the model's list is not re-evaluated in Coq
+	big := mode == "big" || len(p.Idx) >= bigIdxCount
 	c := hx.Case{Kind: "prim", Desc: d, Key: d.key(), Nontriv: len(p.Idx) >= 3, GoFail: gofail}
 	cube := d.Fam == "cubeW" || d.Fam == "cubeQ"
 	switch {
@@ -222,10 +298,25 @@ func one(d desc, mode string) {
 		if bad != "" && c.GoFail == "" {
 			c.GoFail = "not closed after merging coincident positions: " + bad
 		}
-		c.Coq = fmt.Sprintf("CHash %s %d %d %s %s", famCoq(d), len(p.Pos), len(p.Idx), hash2Coq(p.Idx), hash2Coq(rep))
-		run.Count("shape:hash")
+		ctor := "CHash"
+		if big {
+			ctor = "CBig"
+			run.Count("shape:big")
+			run.Count(fmt.Sprintf("big:%s:2^%d-vertices", d.Fam, bits.Len(uint(weldedCount(d)))-1))
+		} else {
+			run.Count("shape:hash")
+		}
+		c.Coq = fmt.Sprintf("%s %s %d %d %s %s", ctor, famCoq(d), len(p.Pos), len(p.Idx), hash2Coq(p.Idx), hash2Coq(rep))
 	}
 	w := 60 * (len(p.Idx) + len(rep))
+	if !small && !cube && big {
+		// measured: index list + fingerprints ≈ 3 µs per index; class list ≈ 3 µs per vertex for identity classes,
+		// ≈ 30 µs where the class map divides (unwelded sphere, cylinder)
+		w = 3*len(p.Idx) + 3*len(rep)
+		if d.Fam == "sphereU" || d.Fam == "cyl" {
+			w = 3*len(p.Idx) + 30*len(rep)
+		}
+	}
 	add(c, w)
 }
 
@@ -466,6 +557,8 @@ func main() {
 			conv(convDesc{Fam: fam, Size: randSize(r), Res: []int{5, 10, 20, 40, 80, 160, 320}})
 		}
 	}
+	// --- genuinely large counts around 2^14 … 2^16 vertices ---
+	bigCases(r, thorough)
 	// --- sampled: large counts (hash) and random small/medium counts with random sizes ---
 	for i := 0; i < run.N; i++ {
 		switch r.Intn(8) {
